@@ -18,6 +18,7 @@ import (
 	"seata.apache.org/seata-go/pkg/protocol/branch"
 	"seata.apache.org/seata-go/pkg/protocol/message"
 	sgetty "seata.apache.org/seata-go/pkg/remoting/getty"
+	"seata.apache.org/seata-go/pkg/remoting/rpc"
 	"seata.apache.org/seata-go/pkg/rm/tcc"
 	"seata.apache.org/seata-go/pkg/tm"
 
@@ -94,6 +95,8 @@ func execute(c Case) *pt.Failure {
 	tc.Sticky(message.MessageTypeBranchRegister, &faketc.Action{Kind: faketc.NoReply})
 	defer tc.Sticky(message.MessageTypeBranchRegister, nil)
 	f0, m0 := sgetty.PendingFuturesForVerif()
+	addr0 := sess.RemoteAddr()
+	active0 := rpc.GetStatus(addr0).GetActive()
 	if c.OnewayDrop {
 		tc.Script(message.RegisterTMRequest{}.GetTypeCode(), faketc.Action{Kind: faketc.NoReply})
 		extra := tc.OpenAt("10.9.9.9:8091")
@@ -242,6 +245,15 @@ func execute(c Case) *pt.Failure {
 			what += "/after-phase-two-response"
 		}
 		return pt.Failf(what, "bookkeeping left behind: futures %d→%d, merged %d→%d", f0, f1, m0, m1)
+	}
+	// the per-coordinator count of requests in flight (what the least-active policy reads) is bookkeeping too
+	active1 := rpc.GetStatus(addr0).GetActive()
+	for i := 0; i < 100 && active1 != active0; i++ {
+		time.Sleep(10 * time.Millisecond)
+		active1 = rpc.GetStatus(addr0).GetActive()
+	}
+	if active1 != active0 {
+		return pt.Failf("C14/bookkeeping-leak/active-count", "requests counted as in flight on %s: %d before the schedule, %d after every caller has returned", addr0, active0, active1)
 	}
 	// (a goroutine that is merely on its way out of the notification is not parked: look again for a while)
 	p := parked()
